@@ -254,8 +254,18 @@ package jws
 //@          has(m, unbox(req.ExtendedSignedAttributes[k].Key, type(string))) && m[unbox(req.ExtendedSignedAttributes[k].Key, type(string))] == req.ExtendedSignedAttributes[k].Value &&
 //@          !IsSpecHeader(unbox(req.ExtendedSignedAttributes[k].Key, type(string))) && !isHeaderKeyCaseVariant$(unbox(req.ExtendedSignedAttributes[k].Key, type(string)))) &&
 //@     (forall i, j :: 0 <= i && i < j && j < len(req.ExtendedSignedAttributes) ==> req.ExtendedSignedAttributes[i].Key != req.ExtendedSignedAttributes[j].Key) }
+// stmt C08/C16 (JWS crit list): scheme first; the authentic signing time under the authority scheme; the expiry when
+// set; exactly the critical extended attribute keys besides
+//@ stmt spec func CritPlacedJ(req *signature.SignRequest, crit []string) bool {
+//@     len(crit) >= 1 && crit[0] == "io.cncf.notary.signingScheme" &&
+//@     (req.SigningScheme == signature.SigningSchemeX509SigningAuthority ==> (exists j :: 0 <= j && j < len(crit) && crit[j] == "io.cncf.notary.authenticSigningTime")) &&
+//@     (!req.Expiry.IsZero() ==> (exists j :: 0 <= j && j < len(crit) && crit[j] == "io.cncf.notary.expiry")) &&
+//@     (forall k :: 0 <= k && k < len(req.ExtendedSignedAttributes) && req.ExtendedSignedAttributes[k].Critical ==> (exists j :: 0 <= j && j < len(crit) && box(crit[j]) == req.ExtendedSignedAttributes[k].Key)) &&
+//@     (forall j :: 0 <= j && j < len(crit) ==> crit[j] == "io.cncf.notary.signingScheme" || (req.SigningScheme == signature.SigningSchemeX509SigningAuthority && crit[j] == "io.cncf.notary.authenticSigningTime") || (!req.Expiry.IsZero() && crit[j] == "io.cncf.notary.expiry") ||
+//@          (exists k :: 0 <= k && k < len(req.ExtendedSignedAttributes) && req.ExtendedSignedAttributes[k].Critical && req.ExtendedSignedAttributes[k].Key == box(crit[j]))) }
 //@ func getSignedAttributes(req, algorithm)
 //@   requires req != nil
+//@   ensures [ok=>crit] err == nil ==> has(result, "crit") && CritPlacedJ(req, JStrList(result["crit"]))
 //@   ensures [err] err != nil ==> result == nil
 //@   ensures [ok=>attrs] err == nil ==> result != nil && fresh(result) && AttrsPlaced(req, result)
 //@   ensures [ok=>scheme] err == nil ==> (req.SigningScheme == signature.SigningSchemeX509 || req.SigningScheme == signature.SigningSchemeX509SigningAuthority) && has(result, "io.cncf.notary.signingScheme") && typeof(result["io.cncf.notary.signingScheme"]) == type(string) && unbox(result["io.cncf.notary.signingScheme"], type(string)) == req.SigningScheme
@@ -265,7 +275,9 @@ package jws
 //@   ensures [ok=>time-authority] (err == nil && req.SigningScheme == signature.SigningSchemeX509SigningAuthority) ==> has(result, "io.cncf.notary.authenticSigningTime") && !has(result, "io.cncf.notary.signingTime")
 //@   ensures [ok=>nothing-else] err == nil ==> (forall s string :: has(result, s) ==> IsSpecHeader(s) || (exists k :: 0 <= k && k < len(req.ExtendedSignedAttributes) && req.ExtendedSignedAttributes[k].Key == box(s)))
 //@   loop 0
-//@     invariant extAttrs != nil && fresh(extAttrs) && fresh(crit)
+//@     invariant extAttrs != nil && fresh(extAttrs) && fresh(crit) && len(crit) >= 1 && crit[0] == "io.cncf.notary.signingScheme"
+//@     invariant forall k :: 0 <= k && k < it && req.ExtendedSignedAttributes[k].Critical ==> (exists j :: 0 <= j && j < len(crit) && box(crit[j]) == req.ExtendedSignedAttributes[k].Key)
+//@     invariant forall j :: 0 <= j && j < len(crit) ==> crit[j] == "io.cncf.notary.signingScheme" || (exists k :: 0 <= k && k < it && req.ExtendedSignedAttributes[k].Critical && req.ExtendedSignedAttributes[k].Key == box(crit[j]))
 //@     invariant forall k :: 0 <= k && k < it ==> typeof(req.ExtendedSignedAttributes[k].Key) == type(string) && has(extAttrs, unbox(req.ExtendedSignedAttributes[k].Key, type(string))) && extAttrs[unbox(req.ExtendedSignedAttributes[k].Key, type(string))] == req.ExtendedSignedAttributes[k].Value
 //@     invariant forall i, j :: 0 <= i && i < j && j < it ==> req.ExtendedSignedAttributes[i].Key != req.ExtendedSignedAttributes[j].Key
 //@     invariant forall s string :: has(extAttrs, s) ==> (exists k :: 0 <= k && k < it && req.ExtendedSignedAttributes[k].Key == box(s))
@@ -328,6 +340,8 @@ package jws
 //@   requires method != nil
 //@   ensures [err] err != nil ==> result0 == "" && result1 == nil
 //@   ensures [ok] err == nil ==> (forall k :: 0 <= k && k < len(result1) ==> result1[k] != nil)
+// stmt C08: the token is produced from exactly the given signed attributes and payload claims, with the given method
+//@   ensures [ok=>signed-what-was-given] err == nil ==> JWTSignedHeader(result0) == headers && JWTSignedClaims(result0) == box(payload) && JWTSignedWith(result0) == method
 
 // stmt C15 (envelope side, JWS): only under notary.x509 with a timestamper is the authority contacted; the request
 // is over this envelope's signature bytes with the hash of the signing algorithm; the token lands in the header;
@@ -354,8 +368,10 @@ package jws
 //@   calls Signer.Sign, NewRequest, Timestamper.Timestamp, SignedToken.Verify, Validator.ValidateContext, Timestamp
 //@   ensures [err=>unchanged] err != nil ==> len(result) == 0 && e.base == old(e.base)
 //@   ensures [ok=>encoded] err == nil ==> len(result) > 0 && e.base != nil && fresh(e.base) && signature.Encodes(result, e.base)
+// stmt C08/C16: what was signed is the attribute map checked above (AttrsPlaced, crit list) and the decoded payload
+//@   assert before call jws.timestampJWS#0: [signed-attributes-are-the-checked-ones] arg0 == env && JWTSignedHeader(JoinDot3(env.Protected, env.Payload, env.Signature)) == signedAttrs && JWTSignedClaims(JoinDot3(env.Protected, env.Payload, env.Signature)) == box(payload)
 //@   assert before call jws.sign#0: [payload-is-object] payload != nil && JClaimsOK(req.Payload.Content) && !JIsNull(req.Payload.Content)
-//@   assert before call jws.sign#0: [attributes-valid] AttrsPlaced(req, signedAttrs) && (req.SigningScheme == signature.SigningSchemeX509 || req.SigningScheme == signature.SigningSchemeX509SigningAuthority) && arg1 == signedAttrs && arg0 == payload
+//@   assert before call jws.sign#0: [attributes-valid] AttrsPlaced(req, signedAttrs) && has(signedAttrs, "crit") && CritPlacedJ(req, JStrList(signedAttrs["crit"])) && (req.SigningScheme == signature.SigningSchemeX509 || req.SigningScheme == signature.SigningSchemeX509SigningAuthority) && arg1 == signedAttrs && arg0 == payload
 
 //@ func (*localSigningMethod).CertificateChain(s)
 //@   requires s != nil && s.signer != nil
